@@ -33,7 +33,11 @@ def engine_cases(
     toks = []
     for _ in range(ntok):
         kind = "file" if (file_tokens and chance(draw, 50)) else "proc"
-        toks.append({"kind": kind, "total": draw(st.integers(1, 4))})
+        tok = {"kind": kind, "total": draw(st.integers(1, 4))}
+        if kind == "file" and foreign and chance(draw, 20):
+            # a stale token file is there when the token is opened: [amount, removed before the watcher is registered]
+            tok["stale"] = [draw(st.integers(1, tok["total"])), draw(st.booleans())]
+        toks.append(tok)
     n = draw(st.integers(1, max_jobs))
     jobs = []
     # pre-tasks attached to upstream outputs change those objects: not mixed with duplicates
